@@ -1,5 +1,5 @@
 (* Proofs/TxProofs.v — C01: compact sizes, wire encoder vs. serialiser, parser vs. encoder, accessors. *)
-From BSV Require Import Base.Hex Model.Opcodes Model.Script Model.VarInt Model.Tx Spec.ScriptTok Spec.TxWire Proofs.ScriptProofs.
+From BSV Require Import Base.Hex Model.Opcodes Model.Script Model.VarInt Model.Tx Model.TxExt Spec.ScriptTok Spec.TxWire Proofs.ScriptProofs.
 
 Local Open Scope N_scope.
 
@@ -1053,4 +1053,77 @@ Proof.
   destruct (take_int 4 r4) as [[lt r5]|]; cbn [of_option bind]; [|discriminate].
   intros H; inversion H; subst. eexists; split; [reflexivity|].
   cbn [d_fields f_version f_locktime f_ins f_outs version locktime inputs outputs]. auto.
+Qed.
+
+(* ------------------------------------------------------------------ *)
+(* 11. the extended-format annotations (locking script / satoshis attached to an input by a signer) do not enter
+   the wire serialisation *)
+Lemma in_fields_of_set_locking i s : in_fields_of (txin_set_locking_script i s) = in_fields_of i.
+Proof. reflexivity. Qed.
+Lemma in_fields_of_set_satoshis i v : in_fields_of (txin_set_satoshis i v) = in_fields_of i.
+Proof. reflexivity. Qed.
+Lemma in_fields_of_annotate i lk sa : in_fields_of (txin_annotate i lk sa) = in_fields_of i.
+Proof. destruct lk, sa; reflexivity. Qed.
+
+Lemma txin_bytes_annotate i lk sa :
+  txin_bytes (txin_annotate i lk sa) = txin_bytes i
+  /\ txin_unlocking_script_size (txin_annotate i lk sa) = txin_unlocking_script_size i.
+Proof. destruct lk, sa; split; reflexivity. Qed.
+
+Lemma nth_error_split_list {A} (l : list A) k x : nth_error l k = Some x -> l = firstn k l ++ x :: skipn (S k) l.
+Proof.
+  revert k; induction l as [|y l IH]; intros [|k] H; cbn in H; try discriminate.
+  - inversion H; subst. reflexivity.
+  - cbn [firstn skipn app]. f_equal. apply IH. exact H.
+Qed.
+
+(* get_input; annotate; set_input at the same index leaves the serialisation unchanged *)
+Lemma tx_set_input_same_fields t k i i' t' :
+  tx_get_input t k = Some i -> in_fields_of i' = in_fields_of i -> tx_set_input t k i' = Ok t' ->
+  fields_of t' = fields_of t.
+Proof.
+  unfold tx_get_input, tx_set_input. intros Hg Hf Hs.
+  destruct (Nat.ltb k (length (inputs t))); [|discriminate]. inversion Hs; subst. clear Hs.
+  unfold fields_of. cbn [version inputs outputs locktime]. f_equal.
+  rewrite (nth_error_split_list _ _ _ Hg) at 3. rewrite !map_app. cbn [map]. rewrite Hf. reflexivity.
+Qed.
+
+Definition api_in_ext : Type := api_in * option (list bit) * option N.
+Definition api_add_in_ext (t : tx) (a : api_in_ext) : tx :=
+  let '(x, lk, sa) := a in let '(id, vo, scr, sq) := x in add_input t (txin_annotate (txin_new id vo scr sq) lk sa).
+Definition build_ext (ver lt : N) (ins : list api_in_ext) (outs : list api_out) : tx :=
+  fold_left api_add_out outs (fold_left api_add_in_ext ins (tx_new ver lt)).
+
+Lemma fold_add_in_ext l : forall t,
+  fields_of (fold_left api_add_in_ext l t) =
+  mk_fields (version t) (map in_fields_of (inputs t) ++ map (fun a => api_in_fields (fst (fst a))) l)
+            (map out_fields_of (outputs t)) (locktime t).
+Proof.
+  induction l as [|[[[[[id vo] scr] sq] lk] sa] l IH]; intros t; cbn [fold_left map].
+  - rewrite app_nil_r. reflexivity.
+  - rewrite IH. unfold api_add_in_ext, add_input. cbn [version inputs outputs locktime fst]. rewrite map_app. cbn [map].
+    rewrite in_fields_of_annotate, <- app_assoc. reflexivity.
+Qed.
+
+(* a transaction assembled through the API serialises to the encoding of the PLAIN field values, whatever
+   annotations its inputs carried when they were added *)
+Theorem construction_api_ext ver lt ins outs :
+  tx_bytes (build_ext ver lt ins outs) =
+  encode_tx_spec (mk_fields ver (map (fun a => api_in_fields (fst (fst a))) ins) (map api_out_fields outs) lt).
+Proof.
+  rewrite serialise_is_spec. unfold build_ext. rewrite fold_add_out.
+  pose proof (fold_add_in_ext ins (tx_new ver lt)) as F. unfold fields_of in F at 1.
+  injection F as F1 F2 F3 F4. rewrite F1, F2, F3, F4. reflexivity.
+Qed.
+
+Theorem extended_fields_not_on_wire :
+  (forall i lk sa, txin_bytes (txin_annotate i lk sa) = txin_bytes i)
+  /\ (forall t k i lk sa t', tx_get_input t k = Some i -> tx_set_input t k (txin_annotate i lk sa) = Ok t' -> tx_bytes t' = tx_bytes t)
+  /\ (forall ver lt ins outs,
+        tx_bytes (build_ext ver lt ins outs) = tx_bytes (build ver lt (map (fun a => fst (fst a)) ins) outs)).
+Proof.
+  split; [intros; apply txin_bytes_annotate|]. split.
+  - intros t k i lk sa t' Hg Hs. rewrite !serialise_is_spec.
+    rewrite (tx_set_input_same_fields t k i _ t' Hg (in_fields_of_annotate i lk sa) Hs). reflexivity.
+  - intros. rewrite construction_api_ext, construction_api, map_map. reflexivity.
 Qed.
